@@ -22,6 +22,22 @@ theorem attach_ok :
     Extracted.LineWriter.functionEvaluateOut = Expected.LineWriter.functionEvaluateOut ∧
     Extracted.LineWriter.functionNewThreadOut = Expected.LineWriter.functionNewThreadOut := ⟨rfl, rfl⟩
 
+/-- The single-writer hypothesis of `C18_lines` (one sequence of `Write` calls on one builder): the body's thread
+gets ONE writer as both its stdout and its stderr (`util.SetStdio(thread, f.out, f.out)`), `util.Stdio` returns
+those two unchanged, and the builtins that run processes (`os.exec`, `os.output`, `sh.exec`, `sh.output`) hand
+them to `os/exec` / the shell interpreter as they are — no wrapper, no tee. Because the two are the identical
+writer, `os/exec` feeds it from a single pipe and a single copying goroutine. A change that wraps one of them
+(e.g. `io.MultiWriter(stderr, …)`) makes two goroutines write to the unsynchronised builder, and breaks this tie. -/
+theorem single_writer_ok :
+    Extracted.LineWriter.setStdioArgs = ["f.out", "f.out"] ∧
+    (∀ a ∈ Extracted.LineWriter.setStdioArgs, ∀ b ∈ Extracted.LineWriter.setStdioArgs, a = b) ∧
+    Extracted.LineWriter.utilStdioBody = Expected.LineWriter.utilStdioBody ∧
+    Extracted.LineWriter.osExecStdio = Expected.LineWriter.osExecStdio ∧
+    Extracted.LineWriter.osOutputStdio = Expected.LineWriter.osOutputStdio ∧
+    Extracted.LineWriter.shExecStdio = Expected.LineWriter.shExecStdio ∧
+    Extracted.LineWriter.shOutputStdio = Expected.LineWriter.shOutputStdio :=
+  ⟨by decide, by decide, rfl, rfl, rfl, rfl, rfl⟩
+
 /-- the event-emitting skeleton of `runTarget.Evaluate` is the control flow `Events.evaluate` follows -/
 theorem evaluate_skeleton_ok : Extracted.LineWriter.evaluateSkeleton = Expected.LineWriter.evaluateSkeleton := rfl
 
